@@ -19,7 +19,8 @@ from props import c18_dump as D, c18_gen as G
 PRELUDE = 'From Coq Require Import List ZArith Bool.\nImport ListNotations.\nFrom V Require Import Model.Schem.\n'
 CLAUSES = ['circuit dump well-formed', 'symbol ids distinct', 'only symbols of children/ports', 'exactly one symbol per child/port',
            'no two instance/port symbols in one cell or overlapping', 'net ends name pins of their own wire', 'per-wire figure connected to driver and all readers',
-           'pins of different wires are drawn at different points', 'every net is routed and its polyline ends exactly on the pins it names']
+           'pins of different wires are drawn at different points', 'every net is routed and its polyline ends exactly on the pins it names',
+           'the point a symbol computes for a pin lies on the marker it paints for that pin']
 NF = len(CLAUSES)
 BATCH = 120          # layouts per case file (each coq_eval call also re-checks the library build: a few seconds)
 PLACER_TIMEOUT_S = 20
@@ -61,7 +62,7 @@ def validate(tag, cases):
 
 def explain(conn, lay, diag):
     """human-readable failing clause + symbol/net/wire from a schem_diag value"""
-    flags = list(diag[:NF]); missing, extra, pairs, badnets, badwires, clash, badgeo = diag[NF:NF + 7]
+    flags = list(diag[:NF]); missing, extra, pairs, badnets, badwires, clash, badgeo, badmarks = diag[NF:NF + 8]
     name = {s['id']: '%s %s' % (s['kind'], s['name']) for s in lay['syms']}
     ename = lambda e: {0: 'in-port %d', 1: 'child %d', 2: 'out-port %d'}[e[0]] % e[1] + (' (%s)' % conn['child_names'][e[1]] if e[0] == 1 and e[1] < len(conn['child_names']) else '')
     pname = lambda p: '%s%s pin %s%d' % (p[0][0], p[0][1], 'out' if p[1] else 'in', p[2])
@@ -84,6 +85,12 @@ def explain(conn, lay, diag):
     if badgeo:
         ex['nets_not_routed_or_not_ending_on_their_pins'] = [{'net': lay['nets'][i]['text'], 'from': lay['nets'][i].get('from'), 'to': lay['nets'][i].get('to')}
                                                              for i in badgeo[:8] if i < len(lay['nets'])]
+    if badmarks:
+        pos = {(q['sym'], q['pin']): (q['x'], q['y']) for q in lay['pins']}
+        ex['pins_computed_off_the_marker_painted_for_them'] = [{'symbol': name.get(lay['marks'][i]['sym']), 'pin': pname(lay['marks'][i]['pin']),
+                                                                'painted_marker_box': lay['marks'][i]['box'],
+                                                                'computed_point': pos.get((lay['marks'][i]['sym'], lay['marks'][i]['pin']))}
+                                                               for i in badmarks[:8] if i < len(lay['marks'])]
     if lay.get('objs_not_in_matrix'): ex['symbols_created_but_not_in_grid'] = lay['objs_not_in_matrix'][:10]
     if lay.get('undrawn_net_ends'): ex['net_ends_on_symbols_not_in_grid'] = list(lay['undrawn_net_ends'].values())[:10]
     return ex
@@ -109,7 +116,7 @@ def matches_F2(conn, lay, info, diag):
     """known finding C18-F2, narrow: ONLY the pin-point clause fails, and every clashing pair is two INPUT pins (index >= 1) of one
     child of class Add / Sub / Mul (the '+' '-' '*' circle) that has more than two in-ports."""
     flags = list(diag[:NF]); clash = diag[NF + 5]
-    if flags != [True] * 7 + [False, True] or not clash: return False
+    if flags != [True] * 7 + [False] + [True] * (NF - 8) or not clash: return False
     wire_of = {}
     for w in conn['wires']:
         for q in [w['drv']] + w['rd']: wire_of[q] = w['id']
@@ -168,6 +175,14 @@ def corruptions(conn, lay, rng):
             out.append(('net polyline ends one pixel off its pin: ' + lay['nets'][i]['text'], l2))
         i = rng.choice(range(len(lay['nets']))); l2 = copy.deepcopy(lay); l2['nets'][i]['from'] = None; l2['nets'][i]['to'] = None
         out.append(('net never routed: ' + lay['nets'][i]['text'], l2))
+    if lay.get('marks'):
+        m = rng.choice(lay['marks']); l2 = copy.deepcopy(lay); d = m['box'][3] - m['box'][1] + 3
+        for q in l2['pins']:
+            if q['sym'] == m['sym'] and q['pin'] == m['pin']: q['y'] += d
+        for n in l2['nets']:
+            if n['src'] == (m['sym'], m['pin']) and n['from']: n['from'] = (n['from'][0], n['from'][1] + d)
+            if n['snk'] == (m['sym'], m['pin']) and n['to']: n['to'] = (n['to'][0], n['to'][1] + d)
+        out.append(('pin computed below the marker painted for it', l2))
     if len(real) >= 2:
         a, b = rng.sample(real, 2)
         l2 = copy.deepcopy(lay)
@@ -185,7 +200,7 @@ def corruptions(conn, lay, rng):
 def recipes_for(ctx):
     lib = G.LIB_QUICK if ctx.quick else G.LIB_THOROUGH
     n_rand, n_top = (45, 12) if ctx.quick else (2500, 400)
-    rs = [('lib', n, list(p)) for n, p in lib] + [('selfloop', list(v)) for v in G.SELFLOOPS] + [('loop', list(v)) for v in G.LOOPS] + [('par', list(v)) for v in G.PARS] + [('gate', list(v)) for v in G.GATES]
+    rs = [('lib', n, list(p)) for n, p in lib] + [('selfloop', list(v)) for v in G.SELFLOOPS] + [('loop', list(v)) for v in G.LOOPS] + [('par', list(v)) for v in G.PARS] + [('gate', list(v)) for v in G.GATES] + [('dup', list(v)) for v in G.DUPS]
     for i in range(n_rand):
         seed = ctx.seed * 100003 + i
         rs.append(('rand', seed, G.rand_params(random.Random(seed), i)))
@@ -262,10 +277,10 @@ def classify(ctx, placed, diags):
 def negative_controls(ctx, placed):
     """seeded corruptions of real layouts; judged only if the original layout is accepted"""
     rng = random.Random(ctx.seed * 7919 + 5)
-    idx = [i for i, (r, p) in enumerate(placed) if len(p['lay']['nets']) >= 3 and not p['info']['swallowed']]
+    idx = [i for i, (r, p) in enumerate(placed) if 3 <= len(p['lay']['nets']) <= (30 if ctx.quick else 60) and not p['info']['swallowed']]   # (small ones: each control repeats the whole layout)
     rng.shuffle(idx)
     out = []
-    for i in idx[:6 if ctx.quick else 40]:
+    for i in idx[:5 if ctx.quick else 40]:
         r, p = placed[i]
         for what, l2 in corruptions(p['conn'], p['lay'], rng):
             out.append((i, what, p['conn'], l2))
@@ -304,6 +319,10 @@ def run(ctx):
     ctx.cov['programs'] = len(placed)
     ctx.cov['disagreements_checked'] = rejected
     judge_negatives(ctx, placed, diags, negs, ndiags)
+    ctx.cov['painted_pin_markers_checked'] = sum(len(p['lay'].get('marks', [])) for _, p in placed)
+    if placed and ctx.cov['painted_pin_markers_checked'] == 0 and not ctx.violations:
+        ctx.violation({'what': 'no pin marker was recognised in any symbol\'s draw() output: the independent source of pin positions is gone '
+                               '(InstanceSymbol.draw changed shape?) - clause ok_marks would be vacuous'}, found_input=False)
     if len(placed) == 0 and not ctx.violations:
         ctx.violation({'what': 'no schematic could be validated (every block failed to build or is out of scope)'}, found_input=False)
     if not r['ok'] and not ctx.violations:
